@@ -29,7 +29,7 @@ ASSUMPTIONS = [
     "dns.resolver.time is a virtual clock; it is frozen while a concurrent history runs",
     "linearizability search is exact for the history sizes used (<= 14 operations); exceeding the node budget is inconclusive, never a violation",
 ]
-REQUIRED = ["mon.seq_step", "mon.never_stale", "mon.lru_bound", "mon.stats_account", "mon.ring_witness", "mon.concurrent_history", "mon.linearizable", "mon.uncontrolled_ops"]
+REQUIRED = ["mon.cleaning_pass_due_in_concurrent_part", "mon.seq_step", "mon.never_stale", "mon.lru_bound", "mon.stats_account", "mon.ring_witness", "mon.concurrent_history", "mon.linearizable", "mon.uncontrolled_ops"]
 BUDGET = {"quick": 40.0, "thorough": 420.0}
 
 
